@@ -275,7 +275,7 @@ fn all_sequences(max_len: usize) -> Vec<Vec<O>> {
 }
 
 fn evaluate(ctx: &Ctx, rep: &mut Report, bin: &Path, base: &Path, cells: &[Cell]) {
-    let results = parallel_map(cells.len(), 16, |i| run_cell(bin, &base.join(format!("cell{}", i)), &cells[i]));
+    let results = parallel_map(cells.len(), 32, |i| run_cell(bin, &base.join(format!("cell{}", i)), &cells[i]));
     let mut infra = Vec::new();
     let mut reported: std::collections::HashSet<String> = Default::default();
     let mut more_failing = 0u64;
